@@ -104,20 +104,62 @@ fn construct_common(ty: &'static str, lang: LanguageIdentifier, arg: String, fai
     }
 }
 
-struct FmtA(Inst);
 struct FmtB(Inst);
 struct FmtF(Inst);
-/// a second formatter type with the SAME `Args` type as `FmtA`: a cache keyed by the argument type (or one that
-/// lets kinds with equal arguments share a table) conflates A and C
-struct FmtC(Inst);
 
-impl Memoizable for FmtA {
-    type Args = (String,);
-    type Error = String;
-    fn construct(lang: LanguageIdentifier, args: Self::Args) -> Result<Self, Self::Error> {
-        construct_common("A", lang, hex(&args.0), 0).map(FmtA)
-    }
+/// The formatter types A and C: two DISTINCT types with the SAME `Args` type - a cache keyed by the argument type (or one
+/// that lets kinds with equal arguments share a table) conflates them - and, being declared under the same name in two
+/// closures of one function, with the same `std::any::type_name` (`…::twin_ops::{{closure}}::Fmt`): only their `TypeId`s
+/// tell them apart.  All uses go through the function pointers handed out here.
+type TwinSeq = fn(&SeqMemo, String, u32) -> Result<String, String>;
+type TwinConc = fn(&ConcMemo, String, u32) -> Result<String, String>;
+struct TwinOps {
+    seq: TwinSeq,
+    seq_kind: TwinSeq,
+    conc: TwinConc,
+    conc_kind: TwinConc,
+    type_name: &'static str,
 }
+
+fn twin_ops() -> (TwinOps, TwinOps) {
+    let a = || -> TwinOps {
+        struct Fmt(Inst);
+        impl Memoizable for Fmt {
+            type Args = (String,);
+            type Error = String;
+            fn construct(lang: LanguageIdentifier, args: Self::Args) -> Result<Self, Self::Error> {
+                construct_common("A", lang, hex(&args.0), 0).map(Fmt)
+            }
+        }
+        TwinOps {
+            seq: |m, s, x| m.with_try_get::<Fmt, _, _>((s,), |f| callback(&f.0, x)),
+            seq_kind: |m, s, x| m.with_try_get_threadsafe::<Fmt, _, _>((s,), |f| callback(&f.0, x)),
+            conc: |m, s, x| m.with_try_get::<Fmt, _, _>((s,), |f| callback(&f.0, x)),
+            conc_kind: |m, s, x| m.with_try_get_threadsafe::<Fmt, _, _>((s,), |f| callback(&f.0, x)),
+            type_name: std::any::type_name::<Fmt>(),
+        }
+    };
+    let c = || -> TwinOps {
+        struct Fmt(Inst);
+        impl Memoizable for Fmt {
+            type Args = (String,);
+            type Error = String;
+            fn construct(lang: LanguageIdentifier, args: Self::Args) -> Result<Self, Self::Error> {
+                construct_common("C", lang, hex(&args.0), 0).map(Fmt)
+            }
+        }
+        TwinOps {
+            seq: |m, s, x| m.with_try_get::<Fmt, _, _>((s,), |f| callback(&f.0, x)),
+            seq_kind: |m, s, x| m.with_try_get_threadsafe::<Fmt, _, _>((s,), |f| callback(&f.0, x)),
+            conc: |m, s, x| m.with_try_get::<Fmt, _, _>((s,), |f| callback(&f.0, x)),
+            conc_kind: |m, s, x| m.with_try_get_threadsafe::<Fmt, _, _>((s,), |f| callback(&f.0, x)),
+            type_name: std::any::type_name::<Fmt>(),
+        }
+    };
+    (a(), c())
+}
+
+
 /// arguments whose `Hash` is deliberately weak (length only) while `Eq` compares everything: a memoizer that
 /// keys its cache by the hash alone, or compares only part of the arguments, conflates distinct keys of type B
 #[derive(Clone, PartialEq, Eq)]
@@ -136,13 +178,7 @@ impl Memoizable for FmtB {
         construct_common("B", lang, hex(&(args.0).0), 0).map(FmtB)
     }
 }
-impl Memoizable for FmtC {
-    type Args = (String,);
-    type Error = String;
-    fn construct(lang: LanguageIdentifier, args: Self::Args) -> Result<Self, Self::Error> {
-        construct_common("C", lang, hex(&args.0), 0).map(FmtC)
-    }
-}
+
 impl Memoizable for FmtF {
     type Args = (String, u32);
     type Error = String;
@@ -273,12 +309,12 @@ fn parse_lookup(ty: &str, arg: &str, x: &str, via: &str) -> Option<Lookup> {
 fn lookup_seq(m: &SeqMemo, l: &Lookup) -> Result<String, String> {
     let x = l.x;
     match (&l.key, l.via_kind) {
-        (Key::A(s), false) => m.with_try_get::<FmtA, _, _>((s.clone(),), |f| callback(&f.0, x)),
+        (Key::A(s), false) => (twin_ops().0.seq)(m, s.clone(), x),
         (Key::B(s), false) => m.with_try_get::<FmtB, _, _>((WeakHashArgs(s.clone()),), |f| callback(&f.0, x)),
         (Key::F(s, n), false) => m.with_try_get::<FmtF, _, _>((s.clone(), *n), |f| callback(&f.0, x)),
-        (Key::C(s), false) => m.with_try_get::<FmtC, _, _>((s.clone(),), |f| callback(&f.0, x)),
-        (Key::C(s), true) => m.with_try_get_threadsafe::<FmtC, _, _>((s.clone(),), |f| callback(&f.0, x)),
-        (Key::A(s), true) => m.with_try_get_threadsafe::<FmtA, _, _>((s.clone(),), |f| callback(&f.0, x)),
+        (Key::C(s), false) => (twin_ops().1.seq)(m, s.clone(), x),
+        (Key::C(s), true) => (twin_ops().1.seq_kind)(m, s.clone(), x),
+        (Key::A(s), true) => (twin_ops().0.seq_kind)(m, s.clone(), x),
         (Key::B(s), true) => m.with_try_get_threadsafe::<FmtB, _, _>((WeakHashArgs(s.clone()),), |f| callback(&f.0, x)),
         (Key::F(s, n), true) => {
             m.with_try_get_threadsafe::<FmtF, _, _>((s.clone(), *n), |f| callback(&f.0, x))
@@ -289,12 +325,12 @@ fn lookup_seq(m: &SeqMemo, l: &Lookup) -> Result<String, String> {
 fn lookup_conc(m: &ConcMemo, l: &Lookup) -> Result<String, String> {
     let x = l.x;
     match (&l.key, l.via_kind) {
-        (Key::A(s), false) => m.with_try_get::<FmtA, _, _>((s.clone(),), |f| callback(&f.0, x)),
+        (Key::A(s), false) => (twin_ops().0.conc)(m, s.clone(), x),
         (Key::B(s), false) => m.with_try_get::<FmtB, _, _>((WeakHashArgs(s.clone()),), |f| callback(&f.0, x)),
         (Key::F(s, n), false) => m.with_try_get::<FmtF, _, _>((s.clone(), *n), |f| callback(&f.0, x)),
-        (Key::C(s), false) => m.with_try_get::<FmtC, _, _>((s.clone(),), |f| callback(&f.0, x)),
-        (Key::C(s), true) => m.with_try_get_threadsafe::<FmtC, _, _>((s.clone(),), |f| callback(&f.0, x)),
-        (Key::A(s), true) => m.with_try_get_threadsafe::<FmtA, _, _>((s.clone(),), |f| callback(&f.0, x)),
+        (Key::C(s), false) => (twin_ops().1.conc)(m, s.clone(), x),
+        (Key::C(s), true) => (twin_ops().1.conc_kind)(m, s.clone(), x),
+        (Key::A(s), true) => (twin_ops().0.conc_kind)(m, s.clone(), x),
         (Key::B(s), true) => m.with_try_get_threadsafe::<FmtB, _, _>((WeakHashArgs(s.clone()),), |f| callback(&f.0, x)),
         (Key::F(s, n), true) => {
             m.with_try_get_threadsafe::<FmtF, _, _>((s.clone(), *n), |f| callback(&f.0, x))
@@ -562,5 +598,10 @@ fn run(payload: &str) -> String {
 }
 
 fn main() {
+    let (a, c) = twin_ops();
+    if a.type_name != c.type_name {
+        // (the harness still works; it just no longer exercises two types that share a name)
+        eprintln!("fvh_memo: the twin formatter types have different type names: {} / {}", a.type_name, c.type_name);
+    }
     fvh::run_main(run);
 }
